@@ -1,3 +1,4 @@
+mod c02s;
 mod c05;
 mod c06;
 mod c07;
